@@ -126,7 +126,18 @@ def _check(ctx: Ctx) -> None:
                               construct="comparison relates different quantities of the two sequences",
                               message=f"left normalises to `{lneut}` ({lside}), right to `{rneut}` ({rside})", file=fi.file, node=c)
                     attrs = attributes_of(lneut)
-                    for a in attrs:
+                    # an attribute counts as compared only when the comparison is about that attribute alone: a combined
+                    # expression (numerator / denominator, note + velocity) identifies several distinct events
+                    alone = set(attrs)
+                    if len(attrs - {"time"}) >= 1:
+                        single = re.fullmatch(r"P\[1\]\[\d\]\.(\w+)|P\[0\]", lneut.strip())
+                        if not single:
+                            alone = attrs & {"time"}
+                            ctx.check(False, "EQ1", inst + " compares one attribute", function=FN,
+                                      construct=f"{T}: attributes {sorted(attrs - {'time'})} are compared only through a combined expression",
+                                      message=f"`{short(c, 80)}` normalises to `{lneut}`: different events with the same combined value compare equal "
+                                              f"(e.g. 3/4 and 6/8 through numerator/denominator)", file=fi.file, node=c)
+                    for a in alone:
                         covered.setdefault(a, set()).update(gflags or {""})
                     tf = time_form(lneut)
                     if tf is not None and not gflags:
@@ -174,7 +185,11 @@ def _check(ctx: Ctx) -> None:
               message="", file=fi.file, node=loop)
 
     # LEN
-    lens = [c for c in walk_local(fi.node) if isinstance(c, ast.Compare) and src(c).count("len(") == 2]
+    nzl = Normaliser()
+    nzl.run_block([s_ for s_ in fi.node.body if isinstance(s_, ast.Assign) and isinstance(s_.targets[0], ast.Name) and s_.lineno < loop.lineno
+                   and isinstance(s_.value, ast.Call) and isinstance(s_.value.func, ast.Name) and s_.value.func.id == "len"])
+    lens = [c for c in walk_local(fi.node) if isinstance(c, ast.Compare) and len(c.ops) == 1
+            and (nzl.norm(c.left).canon() + nzl.norm(c.comparators[0]).canon()).count("len(") == 2]
     ctx.check(bool(lens), "LEN", f"{FN}: pairing counts compared", function=FN, construct="number of pairings never compared",
               message="a sequence with extra trailing events would compare equal (zip stops at the shorter)", file=fi.file, node=fi.node)
 
